@@ -341,6 +341,8 @@ def gen_ops(rng, kn, n, depth=0):
         elif r < 0.88 + kn["p_lib"] and depth == 0:
             name, sig = rng.choice(LIB)
             op = ["lib", name, sig, rng.choice(["none", "python", "numpy", "stablehlo"])]
+        elif r < 0.905:
+            op = ["inspect", ref()]
         elif r < 0.94:
             op = ["rewrite", ref()]
         elif r < 0.97:
@@ -834,6 +836,28 @@ class Sim:
                 if isinstance(res, self.Expr):
                     self.vals.append(res)
                 return res
+            if t == "inspect":
+                # read-only API on an existing expression (types, predicates, printing, keys, indexing): whatever it
+                # caches or registers on the way is history for the constructions that follow
+                obj = self.ref(op[1])
+
+                def look():
+                    obj.get_type()
+                    obj.is_complex
+                    str(obj)
+                    repr(obj)
+                    obj.key
+                    obj.intkey
+                    obj._is_zero
+                    obj._is_finite
+                    if obj.kind == "list":
+                        len(obj)
+                        obj[0]
+                    return None
+
+                self.with_fault(fault, look) if fault else look()
+                self.bump(self.stats, "completed:inspect")
+                return None
             if t == "print":
                 return self.do_print(op, fault)
             raise KeyError(t)
